@@ -15,7 +15,7 @@ sys.path.insert(0, os.path.join(os.path.dirname(os.path.abspath(__file__)), ".."
 import vlib
 
 PID = "C01"
-TYPES = ["INT8", "UINT8", "INT16", "UINT16", "INT32", "UINT32", "INT64", "UINT64", "FLOAT32", "FLOAT64"]
+TYPES = ["INT8", "UINT8", "INT16", "UINT16", "INT32", "UINT32", "INT64", "UINT64", "FLOAT32", "FLOAT64", "COMPLEX64", "COMPLEX128"]
 CODES = ["b", "B", "h", "H", "i", "I", "q", "Q", "f", "d"]
 SIZES = [1, 1, 2, 2, 4, 4, 8, 8, 4, 8]
 SPFS = [1, 2, 3, 4, 5, 7, 12]
@@ -424,7 +424,7 @@ class Case:
             if rng.random() < 0.3:
                 base = f[3] * rng.randint(0, 6)        # frame aligned
             n = rng.choice([0, 1, 1, 2, 3, 4, 5, 8, 13, 40, 100])
-            rt = rng.choice([9, 9, 9, 9, 9, 9, 6, 7, 4])
+            rt = rng.choice([9, 9, 9, 9, 9, 9, 6, 7, 4, 11, 11])      # 11: COMPLEX128 (judged as (FLOAT64 value, 0))
             qs.append((f[0], rt, base, n))
         # window-split independence: a window read in one call and in two, on fields whose inputs have
         # different sample rates (sample k must not depend on where the window starts)
@@ -478,6 +478,20 @@ def parse_model(line):
     return model, spec, tags
 
 
+def tok_eq(a, b):
+    """impl token a equals predicted token b; a complex 're:im' token of a real-valued field must be
+    (predicted FLOAT64 value, zero) -- the imaginary part may be NaN only where the real part is not finite"""
+    if ":" in a:
+        re, im = a.split(":")
+        if b != "?" and re != b:
+            return False
+        if im in ("0", "8000000000000000"):
+            return True
+        nonfinite = (int(re, 16) >> 52) & 0x7ff == 0x7ff
+        return im == "7ff8000000000000" and nonfinite
+    return b == "?" or a == b
+
+
 def same(impl, ref, n, is_model):
     """impl result equals the model / spec prediction ('?' = wild card)"""
     if is_model and ref.get("err"):
@@ -488,7 +502,7 @@ def same(impl, ref, n, is_model):
         return False
     k = min(impl["count"], n)
     for a, b in zip(impl["vals"][:k], ref["vals"][:k]):
-        if b != "?" and a != b:
+        if not tok_eq(a, b):
             return False
     return True
 
@@ -553,7 +567,7 @@ def run_cases(cases, exe, drv, root, jobs=16, want_extents=False):
         for c in ch:
             lines += c.drv + ["L %d" % getattr(c, "lb", -1)]
             for (f, rt, s, n) in c.qs:
-                lines.append("G %s %d %d %d" % (f, rt, s, n))
+                lines.append("G %s %d %d %d" % (f, 9 if rt >= 10 else rt, s, n))
             if want_extents:
                 for f in c.fields:
                     lines.append("E %s" % f[0])
@@ -778,6 +792,153 @@ def judge(chk, cases, stats, exe=None):
                     replay_of(c, q, im, model, spec, tags))
 
 
+# ---------------------------------------------------------------- complex-valued fields
+def complex_probe(chk, exe, root, stats, ncases):
+    """Complex data is not in the Coq model; this part of the read matrix is judged against an
+    independent evaluator written here from dirfile-format(5): complex RAW and complex CARRAY + INDIR
+    inputs, the representation suffixes .r .i .m .a on the field read and on inputs of other derived
+    fields, complex values as first or second input of MULTIPLY / DIVIDE / LINCOM / PHASE, read as
+    FLOAT64 (real part unless a suffix says otherwise) and as COMPLEX128."""
+    import cmath, math
+    rng = chk.rng
+    seen = set()
+
+    def cstr(z):
+        return "%s;%s" % (fmtd(z.real), fmtd(z.imag))
+
+    def repr_of(z, r):
+        if r == "r":
+            return complex(z.real, 0)
+        if r == "i":
+            return complex(z.imag, 0)
+        if r == "m":
+            return complex(abs(z), 0)
+        if r == "a":
+            return complex(cmath.phase(z), 0)
+        return z
+
+    cmds = []
+    plan = []      # (case, code, rt, s, n, expected list of complex)
+    for ci in range(ncases):
+        d = os.path.join(root, "cx%d" % ci)
+        os.makedirs(d)
+        N = rng.randint(6, 20)
+        la = rng.choice([1, 3, 5, 8])
+        ca = [complex(rng.randint(-9, 9) + rng.choice([0, 0.5]), rng.randint(-9, 9)) for _ in range(la)]
+        cr = [float(rng.randint(-9, 9)) for _ in range(la)]
+        idx = [rng.randrange(la) for _ in range(N)]
+        a = [float(rng.randint(-6, 9)) + rng.choice([0, 0.25]) for _ in range(N)]
+        z = [complex(rng.randint(-9, 9), rng.randint(-9, 9) + rng.choice([0, 0.5])) for _ in range(N)]
+        m1, b1 = rng.choice([2.0, -1.0, 0.5, 3.0]), rng.choice([0.0, 1.0, -2.0])
+        sh = rng.choice([1, 2, -1])
+        sfx = lambda: rng.choice(["r", "i", "m", "a"])
+        s1, s2, s3 = sfx(), sfx(), sfx()
+        fmt = ["/ENCODING none", "/ENDIAN little", "a RAW FLOAT64 1", "idx RAW UINT8 1", "z RAW COMPLEX128 1",
+               "ca CARRAY COMPLEX128 " + " ".join(cstr(v) for v in ca), "cr CARRAY FLOAT64 " + " ".join(fmtd(v) for v in cr),
+               "x INDIR idx ca", "xr INDIR idx cr",
+               "l LINCOM 1 x %s %s" % (fmtd(m1), fmtd(b1)), "lz LINCOM 2 z %s %s x 1 0" % (fmtd(m1), fmtd(b1)),
+               "mu MULTIPLY a x", "mx MULTIPLY x a", "mz MULTIPLY z x", "dv DIVIDE a x",
+               "mi MULTIPLY a x.%s" % s1, "li LINCOM 1 x.%s 1 0" % s2, "pz PHASE z.%s %d" % (s3, sh), "ph PHASE x %d" % sh, "/REFERENCE a"]
+        with open(os.path.join(d, "format"), "w") as fh:
+            fh.write("\n".join(fmt) + "\n")
+        with open(os.path.join(d, "a"), "wb") as fh:
+            fh.write(b"".join(struct.pack("<d", v) for v in a))
+        with open(os.path.join(d, "idx"), "wb") as fh:
+            fh.write(bytes(idx))
+        with open(os.path.join(d, "z"), "wb") as fh:
+            fh.write(b"".join(struct.pack("<dd", v.real, v.imag) for v in z))
+        X = [ca[i] for i in idx]
+        nan = complex(float("nan"), float("nan"))
+
+        def at(L, k, pad=nan):
+            return L[k] if 0 <= k < len(L) else None
+        vals = {
+            "x": X, "xr": [complex(cr[i], 0) for i in idx], "z": z, "a": [complex(v, 0) for v in a],
+            "l": [v * complex(m1, 0) + complex(b1, 0) for v in X],
+            "lz": [z[k] * complex(m1, 0) + complex(b1, 0) + X[k] for k in range(N)],
+            "mu": [complex(a[k], 0) * X[k] for k in range(N)], "mx": [X[k] * complex(a[k], 0) for k in range(N)],
+            "mz": [z[k] * X[k] for k in range(N)],
+            "dv": [(complex(a[k], 0) / X[k]) if X[k] != 0 else None for k in range(N)],
+            "mi": [complex(a[k], 0) * repr_of(X[k], s1) for k in range(N)],
+            "li": [repr_of(X[k], s2) for k in range(N)],
+        }
+        # PHASE: sample k is input sample k + shift; the field ends at N - shift; None = padding, not judged here
+        vals["pz"] = [repr_of(z[k + sh], s3) if 0 <= k + sh < N else None for k in range(N - sh)]
+        vals["ph"] = [X[k + sh] if 0 <= k + sh < N else None for k in range(N - sh)]
+        cmds.append("O %s" % d)
+        for _ in range(10):
+            base = rng.choice(list(vals))
+            suf = rng.choice(["", "", ".r", ".i", ".m", ".a"])
+            rt = rng.choice([9, 11])
+            s = rng.randint(0, N - 1)
+            n = rng.randint(1, 8)
+            L = vals[base]
+            exp = []
+            for k in range(s, min(s + n, len(L))):
+                v = L[k]
+                if v is None:
+                    exp.append(None)          # padding before sample 0 / division by zero: not judged here
+                    continue
+                w = repr_of(v, suf[1:]) if suf else v
+                # the argument of a negative real number: +pi or -pi according to the sign of a zero
+                # imaginary part, which the Standards do not define: both accepted
+                exp.append(("pi", w) if suf == ".a" and v.imag == 0 and v.real < 0 else w)
+            cmds.append("G %s%s %d %d %d" % (base, suf, rt, s, n))
+            plan.append((ci, "\n".join(fmt), base + suf, rt, s, n, exp, base == "dv"))
+        cmds.append("C")
+    rc, out = run_stream([exe], "\n".join(cmds) + "\n", env=HENV)
+    res = [l for l in out.split("\n") if l.startswith("G ") or l.startswith("X ")]
+    stats["complex_queries"] = len(plan)
+    if len([l for l in res if l.startswith("G ")]) != len(plan):
+        chk.violation("harness", "complex probe: %d results for %d queries (%s)" % (len(res), len(plan), [l for l in res if l.startswith("X ")][:2]),
+                      {"kind": "harness", "output": out[-500:]}, found=False)
+        return
+
+    def f64(h):
+        return struct.unpack("<d", struct.pack("<Q", int(h, 16)))[0]
+
+    def close(x, y, loose):
+        if x != x or y != y:
+            return x != x and y != y
+        if x == y:
+            return True
+        return loose and abs(x - y) <= 4e-15 * max(abs(x), abs(y), 1e-300)
+    for (ci, fmt, code, rt, s, n, exp, loose), line in zip(plan, [l for l in res if l.startswith("G ")]):
+        im = parse_impl(line)
+        bad = None
+        if im is None or im["err"] != 0 or im["count"] != len(exp):
+            bad = "err/count %s (expected %d samples)" % (line[:60], len(exp))
+        else:
+            for k, (tok, e) in enumerate(zip(im["vals"], exp)):
+                if e is None:
+                    continue
+                if isinstance(e, tuple):
+                    got = f64(tok.split(":")[0])
+                    if abs(got) != math.pi or (rt == 11 and f64(tok.split(":")[1]) != 0):
+                        bad = "sample %d is %s, the Standards give +-pi" % (s + k, tok)
+                        break
+                    continue
+                if rt == 11:
+                    re, imv = [f64(h) for h in tok.split(":")]
+                    ok = close(re, e.real, loose) and close(imv, e.imag, loose)
+                else:
+                    ok = close(f64(tok), e.real, loose)
+                if not ok:
+                    bad = "sample %d is %s, the Standards give %r" % (s + k, tok, e if rt == 11 else e.real)
+                    break
+        if bad:
+            key = "getdata/complex/%s" % re_sub_digits(code)
+            if key not in seen:
+                seen.add(key)
+                chk.violation(key, "gd_getdata(%s, first_sample=%d, n=%d, %s): %s\n%s" % (code, s, n, TYPES[rt], bad, fmt),
+                              {"kind": "complex-probe", "format": fmt, "query": {"field": code, "return_type": TYPES[rt], "first_sample": s, "num_samples": n},
+                               "impl": line, "expected": [None if e is None else ("+-pi" if isinstance(e, tuple) else [e.real, e.imag]) for e in exp]})
+
+
+def re_sub_digits(code):
+    return code
+
+
 # hand-written witnesses of the listed findings (replayed on every run)
 def witness_cases(rng):
     W = []
@@ -910,6 +1071,9 @@ def main():
                         chk.known_confirm(WITNESS_KEYS[c.idx], "witness %d reproduced" % c.idx)
         allcases += cases[:3]
         shutil.rmtree(broot, ignore_errors=True)
+    cxroot = os.path.join(root, "complex")
+    os.makedirs(cxroot)
+    complex_probe(chk, exe, cxroot, stats, 60 if not chk.thorough else 600)
     chk.cov["evaluations"] = stats["queries"]
     chk.cov["distinct_nontrivial"] = len([s for s in stats["sigs"] if s[1] > 0 or s[2] > 0])
     chk.cov["rule"] = ("random dirfiles (2-5 RAW fields of all ten real types, spf from {1,2,3,4,5,7,12}, 0-8 frames plus partial frames, "
